@@ -255,4 +255,6 @@ OBSERVED = f"matrix at numeric parameters differs from the symbolic matrix evalu
     for name, entry in table.items():
         obs.append(Ob(f"C02.{name}.native", "bounded", FN(name), native(name, entry),
                       f"{name}: the real factory can be evaluated natively and agrees with Engine M at sample points (translator validation)"))
+    from vfw import lean
+    obs.append(lean.prelude_ob('C02', 'Euler, addition / multiple-angle formulas, values at multiples of pi/4, sqrt 2'))
     return obs
